@@ -281,7 +281,11 @@ def check_combined_members(chk, prog):
                     if sinks is None:
                         good = {c.bb for c in f.calls if c.bb in reg and c.p in LOSSLESS_SINKS and len(c.args) > 1 and
                                 any(a[0] == "call" and a[2] == nx.bb for a in _deep_item(f, c.args[1]))}
-                        other = [c for c in f.calls if c.bb in reg and c.p.rsplit("::", 1)[-1] in ("or_insert", "or_insert_with", "insert", "entry", "retain", "dedup") and
+                        # set insertion of the item itself (dedup by rule id) is lossless for our purpose; a map keyed by something else is not
+                        set_ins = {c.bb for c in f.calls if c.bb in reg and c.p.endswith(("IndexSet::insert", "HashSet::insert", "BTreeSet::insert")) and len(c.args) > 1 and
+                                   any(a[0] == "call" and a[2] == nx.bb for a in _deep_item(f, c.args[1]))}
+                        good |= set_ins
+                        other = [c for c in f.calls if c.bb in reg and c.bb not in set_ins and c.p.rsplit("::", 1)[-1] in ("or_insert", "or_insert_with", "insert", "entry", "retain", "dedup") and
                                  not c.p.startswith("core::")]
                     else:
                         good = {c.bb for c in f.calls if c.bb in reg and c.p == sinks}
